@@ -356,6 +356,24 @@ func c14BowlRun(c lib.Case, s c14Spec, env *lib.Env) lib.Result {
 		nw = append(append([]byte(nil), old[k:]...), lib.RandomBytes(int64(r.PickInt([]int{0, 1, 9000})), r.Uint64())...)
 		shape, forced, lenRel, small = []string{fmt.Sprintf("drop-leading%d", k)}, nil, "shifted", false
 	}
+	if variant == "sessions" && r.Chance(0.3) {
+		// a constant region near the start of the old file, and a later region that BECOMES that constant in the new
+		// file: what a reader positioned by the (small) overlay offset instead of the read offset lines up with; also
+		// the reverse (leading fresh data so that the overlay offset is large)
+		h := r.PickInt([]int{64 * lib.KB, 200000})
+		A := lib.RandomBytes(int64(r.PickInt([]int{70000, 200000})), r.Uint64())
+		B := lib.RandomBytes(int64(r.PickInt([]int{9000, 70000, 140000})), r.Uint64())
+		fill := byte(r.Intn(2) * 0x20)
+		Z := bytes.Repeat([]byte{fill}, h)
+		old = append(append(append([]byte(nil), Z...), A...), B...)
+		nw = append(append(append([]byte(nil), Z...), A...), bytes.Repeat([]byte{fill}, len(B))...)
+		forced = []int{h + len(A)}
+		if r.Bool() {
+			F := lib.RandomBytes(int64(len(A)), r.Uint64()) // A is rewritten: the overlay grows as fast as the file
+			nw = append(append(append([]byte(nil), Z...), F...), bytes.Repeat([]byte{fill}, len(B))...)
+		}
+		shape, lenRel, small = []string{fmt.Sprintf("const%d+A%d+B%d->const", h, len(A), len(B))}, "later-region-becomes-the-leading-constant", false
+	}
 	dir, stage := filepath.Join(env.Scratch, "dir"), filepath.Join(env.Scratch, "stage")
 	os.MkdirAll(dir, 0o755)
 	other := lib.RandomBytes(1000, r.Uint64())
@@ -451,7 +469,7 @@ func c14BowlRun(c lib.Case, s c14Spec, env *lib.Env) lib.Result {
 		if w.Tell() != int64(off) {
 			return fail("bowl:tell-wrong", fmt.Sprintf("Tell()=%d after %d bytes", w.Tell(), off))
 		}
-		if (saveP > 0 && r.Intn(10) < saveP) || (variant == "sessions" && isForced[off] && r.Bool()) {
+		if (saveP > 0 && r.Intn(10) < saveP) || (variant == "sessions" && isForced[off] && (r.Bool() || lenRel == "later-region-becomes-the-leading-constant")) {
 			wcp, err := w.Save()
 			if err != nil {
 				return fail("bowl:save-error", err.Error())
